@@ -8,7 +8,7 @@ Extraction "model.ml"
   modexp modinv bitlen plaintext_from_nat plaintext_symmetric normalise pt_add pt_neg pt_scale
   representative noise cmul enc textbook cinv cscale shift rerandomise
   nonce_mul nonce_inv nonce_scale unit_from
-  new_secret_key new_public_key precompute decrypt open_ct sk_N
+  new_secret_key new_public_key precompute decrypt decrypt_checked open_ct sk_N
   sk_noise sk_cmul sk_enc sk_cscale sk_cinv sk_shift sk_rerandomise
   sk_nonce_mul sk_nonce_inv sk_nonce_scale
   eg_new_secret_key eg_public eg_new_public_key eg_representative eg_noise eg_sk_noise eg_op
